@@ -291,7 +291,7 @@ def apply_measure(interp, m, args):
                 xs.base_measures[key] = v
                 # the fold of the empty list is `init`
                 e = interp.truth(interp.eq(v, m.init))
-                interp.st.assume(wrap(z3.Implies(xs.base_len == 0, to_z3(e))))
+                interp.st._add(z3.Implies(xs.base_len == 0, to_z3(e)))      # valid in every merge scope
             acc = xs.base_measures[key]
         for x in xs.tail:
             acc = interp.call(m.step, [acc, x] + params, {})
@@ -313,7 +313,7 @@ def join(interp, sep, xs):
         key = ('str.join', _param_key([sep]))
         if key not in xs.base_measures:
             j = st.fresh_str('join(%s#%d)' % (xs.uid, xs.version))
-            st.assume(z3.Implies(xs.base_len == 0, j == z3.StringVal('')))
+            st._add(z3.Implies(xs.base_len == 0, j == z3.StringVal('')))
             xs.base_measures[key] = j
         acc = xs.base_measures[key]
         empty = xs.base_len == 0
